@@ -460,6 +460,7 @@ MUTANTS = [
          "            ed_ext.task_disp->allow_fifo_task(fifo_task_allowed);\n        });\n\n        if (fifo_task_allowed) finalize();\n        return nullptr;")]),
     dict(name='c03-zombie-flag-missing', prop='C03', clause='D4', edits=[
         (PR_H, "        parent_ptr->has_right_zombie = true;", "        ")]),
+    dict(name='c03-seed6-ancestor-climb-stops-at-a-painted-ancestor', prop='C03', clause='D2', edits=[('src/tbb/task_group_context.cpp', '                    (c->*mptr_state).store(new_state, std::memory_order_relaxed);\n                break;\n            }\n        }\n', '                    (c->*mptr_state).store(new_state, std::memory_order_relaxed);\n                break;\n            }\n            // An ancestor that is already in the new state has had its own subtree taken care of\n            if ((ancestor->*mptr_state).load(std::memory_order_relaxed) == new_state)\n                break;\n        }\n')]),
     # ---------------------------------------------------------------- C04
     dict(name='c04-cancel-load-store', prop='C04', clause='D1', edits=[
         (TGC_CPP, "if (ctx.my_cancellation_requested.load(std::memory_order_relaxed) || ctx.my_cancellation_requested.exchange(1)) {",
@@ -561,6 +562,7 @@ MUTANTS = [
             });
             popped = my_queue_representation->choose(target).pop(dst, target, *my_queue_representation, my_allocator);
             vacated_guard.dismiss();""", """            popped = my_queue_representation->choose(target).pop(dst, target, *my_queue_representation, my_allocator);""")]),
+    dict(name='c04-ancestor-climb-stops-at-a-painted-ancestor', prop='C04', clause='D3', edits=[('src/tbb/task_group_context.cpp', '                    (c->*mptr_state).store(new_state, std::memory_order_relaxed);\n                break;\n            }\n        }\n', '                    (c->*mptr_state).store(new_state, std::memory_order_relaxed);\n                break;\n            }\n            // An ancestor that is already in the new state has had its own subtree taken care of\n            if ((ancestor->*mptr_state).load(std::memory_order_relaxed) == new_state)\n                break;\n        }\n')]),
     # ---------------------------------------------------------------- C05
     dict(name='c05-simple-do-while', prop='C05', clause='D1', edits=[
         (PT_H, "        while( range.is_divisible() )\n            start.offer_work( split_obj, ed );", "        do {\n            start.offer_work( split_obj, ed );\n        } while( range.is_divisible() );")]),
@@ -1662,6 +1664,7 @@ MUTANTS += [
 ]
 
 BENIGN = [
+    dict(name='c04-b-ancestor-climb-explicit-root-exit', prop='C04', edits=[('src/tbb/task_group_context.cpp', '                    (c->*mptr_state).store(new_state, std::memory_order_relaxed);\n                break;\n            }\n        }\n', '                    (c->*mptr_state).store(new_state, std::memory_order_relaxed);\n                break;\n            }\n            if (ancestor->my_parent == nullptr)\n                break;     // the root is not the source: ctx does not descend from it\n        }\n')]),
     dict(name='c19-b-cas-reloads-the-root-and-the-link-is-renewed', prop='C19', edits=[('include/oneapi/tbb/enumerable_thread_specific.h', '            for(;;) {\n                a->next = r;\n                call_itt_notify(releasing,a);\n                array* new_r = r;\n                if( my_root.compare_exchange_strong(new_r, a) ) break;\n                call_itt_notify(acquired, new_r);\n                __TBB_ASSERT(new_r != nullptr, nullptr);\n                if( new_r->lg_size >= s ) {\n                    // Another thread inserted an equal or  bigger array, so our array is superfluous.\n                    deallocate(a);\n                    break;\n                }\n                r = new_r;\n            }\n', '            for(;;) {\n                a->next = r;\n                call_itt_notify(releasing,a);\n                if( my_root.compare_exchange_strong(r, a) ) break;\n                call_itt_notify(acquired, r);\n                __TBB_ASSERT(r != nullptr, nullptr);\n                if( r->lg_size >= s ) {\n                    // Another thread inserted an equal or  bigger array, so our array is superfluous.\n                    deallocate(a);\n                    break;\n                }\n            }\n')]),
     dict(name='c10-b-accessor-hash-through-a-local', prop='C10', edits=[(CHM_H, '        result->my_hash = h;\n', '        { const hashcode_type whole_hash = h; result->my_hash = whole_hash; }\n')]),
     dict(name='c05-b-2d-ratio-comparison-in-a-local', prop='C05', edits=[('include/oneapi/tbb/blocked_range2d.h', '        if ( !my_rows.is_divisible() || (my_cols.is_divisible() &&\n             my_rows.size()*double(my_cols.grainsize()) < my_cols.size()*double(my_rows.grainsize())) ) {', '        const bool cols_larger = my_rows.size()*double(my_cols.grainsize()) < my_cols.size()*double(my_rows.grainsize());\n        if ( !my_rows.is_divisible() || (my_cols.is_divisible() && cols_larger) ) {')]),
